@@ -388,8 +388,40 @@ func runC20(t *testing.T, id string, steps []c20Step) {
 			// a spurious reconcile of a name that did not change
 		}
 		hookMark := w.hooks.Mark()
+		// a delete that arrives while a sync of the instance is in flight: the hook call of that
+		// sync is held until Reconcile has returned (or 300 ms have passed: a Stop that waits for
+		// its workers cannot return before the call is answered)
+		var released chan struct{}
+		if st.Op == "delete" && prevInstance != nil && c20StartsOK(w.spec[i]) && w.spec[i] != "no-sync-hook" {
+			released = make(chan struct{})
+			entered := make(chan struct{}, 1)
+			prefix := fmt.Sprintf("c%d/g%d/", i, prevGen)
+			rel := released
+			w.hooks.SetGate(func(call *sim.HookCall) {
+				if !strings.HasPrefix(call.Path, prefix) {
+					return
+				}
+				select {
+				case entered <- struct{}{}:
+				default:
+				}
+				select {
+				case <-rel:
+				case <-time.After(300 * time.Millisecond):
+				}
+			})
+			touch(i)
+			select {
+			case <-entered:
+			case <-time.After(2 * time.Second):
+			}
+		}
 		rerr, pan := w.reconcile(i)
 		returnedAt := atomic.LoadInt64(s.Clock())
+		if released != nil {
+			close(released)
+			w.hooks.SetGate(nil)
+		}
 		if pan != "" {
 			viol("panic:"+sim.PanicSite(pan)+":"+st.Spec, "Reconcile panicked (this takes the whole process down): "+pan)
 			return
@@ -454,6 +486,17 @@ func runC20(t *testing.T, id string, steps []c20Step) {
 				}
 			}
 		}
+		// (2b) ... and no API write is made on its behalf after the stop
+		if released != nil {
+			settle()
+			mine := fmt.Sprintf("p%d", i)
+			for _, q := range s.Since(reqMark) {
+				if q.Actor == "mc" && q.Mutating() && q.Seq > returnedAt && strings.Contains(q.Name, mine) {
+					viol("api-write-after-stop:delete", fmt.Sprintf("after Reconcile returned for %s (a sync was in flight when the stop arrived), the stopped instance still sent %s", st, q.String()))
+					break
+				}
+			}
+		}
 		// (3)/(5) subscriptions: with nothing running the open watches are back at the baseline
 		running := 0
 		for range w.mc.parentControllers {
@@ -492,3 +535,123 @@ func runC20(t *testing.T, id string, steps []c20Step) {
 }
 
 var _ = schema.GroupVersionResource{}
+
+// The controller is stopped while one of its workers is still waiting for the cache of a related
+// resource to fill (its first LIST is held back at the API server): whatever that worker had
+// subscribed to is released all the same - "after a stop ... its informer subscriptions are
+// released".
+func TestVerif_C20_StopDuringRelatedSync(t *testing.T) {
+	for _, parents := range []int{1, 3} {
+		for _, then := range []string{"delete", "update-spec"} {
+			parents, then := parents, then
+			id := fmt.Sprintf("c20-stop-during-related-sync-p%d-%s", parents, then)
+			if !sim.WantCase(id) {
+				continue
+			}
+			t.Run(id, func(t *testing.T) {
+				t.Parallel()
+				runC20StopDuringRelatedSync(t, id, parents, then)
+			})
+		}
+	}
+}
+
+func runC20StopDuringRelatedSync(t *testing.T, id string, parents int, then string) {
+	rep := sim.R()
+	rep.Begin("C20", id)
+	uid := uniqueID("sr")
+	w, err := newC20World(uid)
+	if err != nil {
+		inconclusive(t, "C20", id, err)
+		return
+	}
+	defer w.close()
+	s := w.sim
+	w.hooks.SetOverride(func(call *sim.HookCall) *sim.HookResponse {
+		if strings.HasSuffix(call.Path, "/customize") {
+			return &sim.HookResponse{Status: 200, Body: []byte(`{"relatedResources":[{"apiVersion":"v1","resource":"secrets","labelSelector":{}}]}`)}
+		}
+		return &sim.HookResponse{Status: 200, Body: []byte(`{"status":{},"children":[]}`)}
+	})
+	for k := 0; k < parents; k++ {
+		p := sim.NewObject(sim.ThingInfo, "ns-"+uid, fmt.Sprintf("p0-%d", k))
+		sim.SetLabels(p, map[string]string{"managed-by": w.ccName(0)})
+		p["spec"] = sim.Obj{"n": int64(0)}
+		s.MustCreate(sim.ThingInfo.GVR(), p)
+	}
+	baseline := w.watchCounts()
+	// the first LIST of secrets does not answer until released
+	release := make(chan struct{})
+	var listHeld int32
+	s.SetGate(func(ri *sim.ReqInfo) {
+		if ri.Verb == "list" && ri.GVR == sim.SecretInfo.GVR() {
+			atomic.StoreInt32(&listHeld, 1)
+			select {
+			case <-release:
+			case <-time.After(5 * time.Second):
+			}
+		}
+	})
+	ctx := context.TODO()
+	w.gen[0]++
+	if err := w.k8s.Create(ctx, w.build(0, "customize")); err != nil {
+		inconclusive(t, "C20", id, err)
+		return
+	}
+	if rerr, pan := w.reconcile(0); pan != "" || rerr != nil {
+		inconclusive(t, "C20", id, fmt.Errorf("create: %v %s", rerr, pan))
+		return
+	}
+	deadline := time.Now().Add(10 * time.Second)
+	for atomic.LoadInt32(&listHeld) == 0 && time.Now().Before(deadline) {
+		time.Sleep(200 * time.Microsecond)
+	}
+	held := atomic.LoadInt32(&listHeld) == 1
+	// now the stop
+	switch then {
+	case "delete":
+		if err := w.k8s.Delete(ctx, &v1alpha1.CompositeController{ObjectMeta: metav1.ObjectMeta{Name: w.ccName(0)}}); err != nil {
+			inconclusive(t, "C20", id, err)
+			return
+		}
+	case "update-spec":
+		cur := &v1alpha1.CompositeController{}
+		if err := w.k8s.Get(ctx, types.NamespacedName{Name: w.ccName(0)}, cur); err != nil {
+			inconclusive(t, "C20", id, err)
+			return
+		}
+		w.gen[0]++
+		cur.Spec = w.build(0, "valid").Spec // the new configuration has no customize hook: no related resource
+		if err := w.k8s.Update(ctx, cur); err != nil {
+			inconclusive(t, "C20", id, err)
+			return
+		}
+	}
+	_, pan := w.reconcile(0)
+	close(release)
+	s.SetGate(nil)
+	if pan != "" {
+		rep.Violation("C20", id, "panic:"+sim.PanicSite(pan), "Reconcile panicked: "+pan, nil)
+		return
+	}
+	// what must be open afterwards: nothing (delete) / parents and children of the new instance, no secrets (update-spec)
+	var leaked int
+	dl := time.Now().Add(10 * time.Second)
+	for {
+		leaked = w.sim.OpenWatches(sim.SecretInfo.GVR())
+		if then == "delete" {
+			cur := w.watchCounts()
+			if fmt.Sprint(cur) != fmt.Sprint(baseline) {
+				leaked = 1
+			}
+		}
+		if leaked == 0 || time.Now().After(dl) {
+			break
+		}
+		time.Sleep(500 * time.Microsecond)
+	}
+	if leaked != 0 {
+		rep.Violation("C20", id, "informer-subscriptions-leaked:stop-during-related-cache-sync:"+then, fmt.Sprintf("the instance was stopped while a worker waited for the secrets cache to fill; afterwards the API server still sees watches %v (baseline %v)", w.watchCounts(), baseline), map[string]interface{}{"parents": parents, "then": then})
+	}
+	rep.Case("C20", id, held, id, map[string]interface{}{"parents": parents, "then": then, "relatedListWasHeldAtStop": held})
+}
